@@ -161,11 +161,12 @@ func (u *executeUnit) run(r euReq) euResp {
 			u.bu.notifyUnconditionalJumpAddressResolved(u.runner.Pc, execution.NextPc)
 		}
 		if u.runner.Runner.InstructionType().IsConditionalBranch() {
-			if execution.PcChange {
+			if execution.PcChange && execution.NextPc != u.runner.Pc+4 {
 				// Branch taken (jump)
 				u.bu.notifyConditionalBranchTaken(u.runner.SequenceID)
 			} else {
-				// Branch not taken (next PC)
+				// Branch not taken (next PC), or taken to the next instruction: the
+				// instructions speculated behind it are on the executed path
 				u.bu.notifyConditionalBranchNotTaken()
 			}
 		}
